@@ -2,7 +2,7 @@
     every loop; Go-sized slices; the pooled counter buffer has its 8 bytes, whatever they are), and the
     decoder seen from the source side. *)
 From Coq Require Import ZifyN ZifyNat ZifyBool.
-From OtpV Require Import Prelude Sha GoSem Errors Decoder Derive Otp Ocra Suite Src SrcLift SrcEqDerive SrcEqOtp SrcEqOcra.
+From OtpV Require Import Prelude Sha GoSem Errors Decoder Derive Otp Ocra Suite LeakProofs Src SrcLift SrcEqDerive SrcEqOtp SrcEqOcra.
 Open Scope N_scope.
 
 Definition runs (fuel : nat) (junk secret : bytes) : Prop :=
@@ -38,3 +38,21 @@ Lemma lift_v_true o : lift_v o = Val (true, None) <-> fst o = Ok (true, None).
 Proof.
   unfold lift_v. destruct (fst o) as [[b e]|e|]; split; intros H; try discriminate; inversion H; reflexivity.
 Qed.
+
+Definition returns {A} (r : res A) : Prop := exists a, r = Val a.
+
+Lemma lift_oc_returns o : o <> Panic -> returns (lift_oc o).
+Proof. intros H. destruct o as [a|e|]; [eexists; reflexivity|eexists; reflexivity|congruence]. Qed.
+Lemma lift_v_returns o : fst o <> Panic -> returns (lift_v o).
+Proof. intros H. unfold lift_v. destruct (fst o) as [a|e|]; [eexists; reflexivity|eexists; reflexivity|congruence]. Qed.
+
+
+Definition verdict_ok (r : res (bool * option err)) : Prop :=
+  r = Val (true, None) \/ exists e, r = Val (false, Some e) /\ textless e.
+
+Lemma lift_v_verdict o : (exists k, o = (Ok (true, None), k) \/ exists e, o = (Ok (false, Some e), k)) ->
+  (forall e k, o = (Ok (false, Some e), k) -> textless e) -> verdict_ok (lift_v o).
+Proof.
+  intros [k [H|[e H]]] Ht; subst o; [left; reflexivity|right]. exists e. split; [reflexivity|]. eapply Ht. reflexivity.
+Qed.
+
